@@ -8,14 +8,20 @@ src = open(shard).read()
 head, rest = src.split("Definition cases", 1)
 body = rest.split(":= [", 1)[1].rsplit("\n].", 1)[0]
 # split top-level cases on ";\n  CCompile" / CEdit
-parts = re.split(r";\n  (?=C(?:Compile|Edit)\b)", body.strip())
+parts = re.split(r";\n  (?=C(?:CompileV|Compile|Edit)\b)", body.strip())
 case = parts[pos].strip()
 coq = os.path.join(os.path.dirname(os.path.abspath(__file__)), "..", "coq")
 v = head + "\nFrom J5V.lib Require Import Outcome Corr.\nImport ListNotations.\nLocal Open Scope N_scope.\n"
 v += "Definition the_case := (%s).\n" % case
-v += """Definition model_out := match the_case with CCompile bd pkg ok files => compile bd pkg end.
-Definition real_out := match the_case with CCompile bd pkg ok files => (ok, files) end.
-Eval vm_compute in model_out.
+if case.startswith("CEdit"):
+    v += """Definition model_out := match the_case with CEdit bd es bd' pkg ok ok' okall okall' embeds files files' => (compile bd pkg, compile bd' pkg, compile (apply_edits bd es) pkg, valid bd, valid (apply_edits bd es)) end.
+Definition real_out := match the_case with CEdit bd es bd' pkg ok ok' okall okall' embeds files files' => (ok, ok', okall, okall', files, files') end.
+"""
+else:
+    v += """Definition model_out := match the_case with CCompile bd pkg ok files => (compile bd pkg, valid bd) | CCompileV bd pkg ok okall exact files => (compile bd pkg, valid bd) end.
+Definition real_out := match the_case with CCompile bd pkg ok files => (ok, ok, files) | CCompileV bd pkg ok okall exact files => (ok, okall, files) end.
+"""
+v += """Eval vm_compute in model_out.
 Eval vm_compute in real_out.
 """
 d = tempfile.mkdtemp()
